@@ -1,8 +1,18 @@
 from dataclasses import dataclass
 
-from mypy.nodes import Block, CallExpr, Expression, ExpressionStmt, MemberExpr, MypyFile, Statement
+from mypy.nodes import (
+    Block,
+    CallExpr,
+    Expression,
+    ExpressionStmt,
+    MemberExpr,
+    MypyFile,
+    NameExpr,
+    Statement,
+)
 
 from refurb.checks.common import (
+    ReadCountVisitor,
     check_block_like,
     get_mypy_type,
     is_equivalent,
@@ -51,6 +61,16 @@ class Last:
     did_error: bool = False
 
 
+def reads_list(lst: Expression, arg: Expression) -> bool:
+    if not isinstance(lst, NameExpr):
+        return False
+
+    visitor = ReadCountVisitor(lst)
+    visitor.accept(arg)
+
+    return visitor.was_read
+
+
 def check(node: Block | MypyFile, errors: list[Error]) -> None:
     check_block_like(check_stmts, node, errors)
 
@@ -61,9 +81,13 @@ def check_stmts(stmts: list[Statement], errors: list[Error]) -> None:
     for stmt in stmts:
         match stmt:
             case ExpressionStmt(
-                expr=CallExpr(callee=MemberExpr(expr=expr, name="append"), args=[_]),
+                expr=CallExpr(callee=MemberExpr(expr=expr, name="append"), args=[arg]),
             ) if is_same_type(get_mypy_type(expr), list):
-                if not last.did_error and is_equivalent(expr, last.expr):
+                if (
+                    not last.did_error
+                    and is_equivalent(expr, last.expr)
+                    and not reads_list(expr, arg)
+                ):
                     lhs = stringify(expr)
                     old = f"{lhs}.append(...); {lhs}.append(...)"
                     new = f"{lhs}.extend((..., ...))"
